@@ -69,6 +69,13 @@ def evaluate(case):
     if case["omitted"]:
         kw["OmittedXrangeCorrection"] = True
     fails = []
+    # the arrays handed in are the caller's: a transform (window covering everything, Lorch on) leaves them as they were
+    snap13 = [a.copy() for a in (x, y) ] + [None if dy is None else dy.copy()]
+    with np.errstate(all="ignore"):
+        tr.fourier_transform(x, y, xo, dy_in=dy, lorch=True)
+        tr.fourier_transform(x, y, xo, xmin=float(x.min()) - 1.0, xmax=float(x.max()) + 1.0, dy_in=dy, **kw)
+    if not (np.array_equal(snap13[0], x) and np.array_equal(snap13[1], y, equal_nan=True) and (dy is None or np.array_equal(snap13[2], dy, equal_nan=True))):
+        return ["fourier_transform changes an array the caller passed in (values entering a later, narrower window are no longer the caller's data)"]
     # "for all grids": the same rows in another order (descending, or two banks stored high-angle first) — omitting the window, or one
     # side of it, still means the full data range
     if len(x) >= 4:
